@@ -76,14 +76,22 @@ func normalizeAll(s string) string {
 var swapMu sync.Mutex
 
 // buildArchive serialises the given files with serializer.ArchiveLicenses; ReadLicenseFile is swapped for the duration.
-func buildArchive(files []licFile) ([]byte, error) {
+func buildArchive(files []licFile) ([]byte, error) { return buildArchiveDirs(files, nil) }
+
+// buildArchiveDirs hands file i to ArchiveLicenses as dirs[i%len(dirs)] + name: license files given as paths with a
+// directory part (relative, absolute, ./) are archived under their file names just the same.
+func buildArchiveDirs(files []licFile, dirs []string) ([]byte, error) {
 	swapMu.Lock()
 	defer swapMu.Unlock()
 	byName := map[string]string{}
 	var names []string
-	for _, f := range files {
-		byName[f.Name] = f.Content
-		names = append(names, f.Name)
+	for i, f := range files {
+		n := f.Name
+		if len(dirs) > 0 {
+			n = dirs[i%len(dirs)] + n
+		}
+		byName[n] = f.Content
+		names = append(names, n)
 	}
 	saved := lc.ReadLicenseFile
 	lc.ReadLicenseFile = func(name string) ([]byte, error) {
